@@ -133,6 +133,17 @@ func (w *World) MarkNontrivial() {
 //go:norace
 func (w *World) Cfg(k string, v interface{}) { w.Config[k] = v }
 
+// Deep scales history lengths and task counts: the thorough tier explores longer runs, not
+// only more of them.
+//
+//go:norace
+func (w *World) Deep(n int) int {
+	if w.Tier == "thorough" {
+		return n * 3
+	}
+	return n
+}
+
 // Logf records an event: folded into the run hash, kept in the sample prefix.
 //
 //go:norace
